@@ -23,7 +23,9 @@ STATEMENT
   link_nodes) on free chains only -- the class docstring trades encapsulation and "assumes well-behaved calls";
   link_nodes joins the last node of one free chain to the first of another; the existing node given to remove_node /
   insert_* belongs to that list (or the list is empty: refused); the return value of pop(); resuming an iteration after
-  its node was taken out or its list cleared; mutation of an OrderedSet while iterating it; plain str that are not
+  its node was taken out or its list cleared; what becomes of the nodes a list held when it was cleared / re-initialised;
+  whether a failed extend() keeps the delivered prefix or nothing (both accepted); order_before / order_after of an
+  ABSENT item relative to itself; mutation of an OrderedSet while iterating it; plain str that are not
   lower-case mixed with _strI as keys of one set / dict; pickle protocols 0 and 1 of a _strI (Python refuses __slots__
   without __getstate__) or of a container holding one; l.extend(l) (the list as its own iterable: does not terminate
   on the pinned tree, recorded in the evidence as a diagnostic only).
@@ -191,7 +193,6 @@ def configs(quick):
         c["listD"] = (cfg_text("list", nnodes=3, nlists=2, values=["A", "B"], itkinds=["ln", "lr", "nns", "nps"], props=LIST_PROPS), False)
         c["listE"] = (cfg_text("list", nnodes=4, nlists=2, values=["A"], itkinds=["ln", "nps"], maxseq=1, props=LIST_PROPS), False)
         c["osetA_impl"] = (cfg_text("oset", nnodes=4, nsets=1, nnames=3, spells=["C"], props=SET_PROPS), False)
-        c["osetC_impl"] = (cfg_text("oset", nnodes=4, nsets=1, nnames=3, spells=["C", "U"], maxseq=1, props=SET_PROPS), False)
     return c
 
 
@@ -560,9 +561,9 @@ def describe_event(tr, rec, at):
 
 
 def record_one(spec):
-    kind, seed, arg = spec
+    kind, seed, arg = spec[:3]
     if kind == "big":
-        return REC.record_big(seed, arg)
+        return REC.record_big(seed, arg, spec[3] if len(spec) > 3 else None)
     return REC.record(seed, kind, arg)
 
 
@@ -572,9 +573,12 @@ def trace_plan(rng, quick):
     for prof in REC.PROFILES:
         for _ in range(n):
             plan.append((prof, rng.getrandbits(32), rng.choice([15, 25, 40])))
-    for kind, k in (("biglist", 3 if quick else 24), ("manylists", 3 if quick else 24), ("bigset", 2 if quick else 16)):
-        for _ in range(k):
-            plan.append(("big", rng.getrandbits(32), kind))
+    # size stress (notes/SIZE_STRESS.md): the counts rotate deterministically so that every run meets the boundaries
+    sizes = {"biglist": [257, 100, 256, 33, 1000, 255, 101, 99, 17, 32], "manylists": [33, 10, 17, 40, 9, 16, 31, 32, 11],
+             "bigset": [256, 101, 257, 1000, 100, 255, 99, 33]}
+    for kind, k in (("biglist", 5 if quick else 30), ("manylists", 3 if quick else 18), ("bigset", 4 if quick else 24)):
+        for j in range(k):
+            plan.append(("big", rng.getrandbits(32), kind, sizes[kind][j % len(sizes[kind])]))
     return plan
 
 
